@@ -23,6 +23,7 @@ CONSTANTS Closed,
                    \* invariants, source of replay scenarios): "AnyDoneOrder", "CloseBeforeDrain",
                    \* "SpawnAllThenWait", "SendFirstRemoteOnly", "NoSkipCheck", "SinkOnlyIfDriver" (= F1), "NoDrain" (= F12), "NoWaitAll" (= F16),
                    \* "StreamAtDone" (streaming IPs sent like ordinary ones, after the task), "NoFifoRemove",
+                   \* "SplitDropLast" (a FileSplitter that does not emit the trailing part of each file),
                    \* "SubNoDrain" (a task with a joined in-port is built without waiting for the end of the sub-stream),
                    \* "SinkFileFirst" (the sink drains its file port to the end before its parameter port), "SeqDrain" (abandoned
                    \* in-ports drained one after the other), "CombSendSeq" (a combinator sends its out-ports one after the other)
@@ -54,19 +55,23 @@ IsComb(n)     == (PR(n).kind = "pcomb" /\ Len(PR(n).params) >= 2) \/ PR(n).kind 
 CombNames(n)  == IF PR(n).kind = "fcomb" THEN PR(n).ins ELSE PR(n).params
 IsCat(n)      == PR(n).kind = "concat"
      \* "concat" (Concatenator): collects its whole in-port (writing the items into one file), then emits that ONE file, PR(n).item
-IsRelay(n)    == (PR(n).kind = "pcomb" /\ ~IsComb(n)) \/ PR(n).kind = "maptotags" \/ IsCat(n)
+IsRelay(n)    == (PR(n).kind = "pcomb" /\ ~IsComb(n)) \/ PR(n).kind \in {"maptotags", "splitter"} \/ IsCat(n)
      \* "pcomb" with one port: collects its whole input, then emits it;
      \* "maptotags": pass-through component - forwards every item as it arrives (ports in / out)
-IsPass(n)     == PR(n).kind = "maptotags"
+IsSplit(n)    == PR(n).kind = "splitter"
+     \* "splitter" (FileSplitter, ports file / split_file): forwards PR(n).nparts parts "<item>.txt.split_<k>" for every item as it arrives
+IsPass(n)     == PR(n).kind = "maptotags" \/ IsSplit(n)
+SplitParts(sq, K) == FlattenSeq([i \in DOMAIN sq |-> [k \in 1..K |-> sq[i] \o ".txt.split_" \o ToString(k)]])
 \* "substream" (StreamToSubStream): emits ONE carrier item at once; the files arriving on its in-port are read by whoever receives
 \* the carrier on a joined in-port ({i:x|join:SEP}): NewTask drains that channel until it is closed.
 IsSub(n)      == PR(n).kind = "substream"
 Carrier(n)    == "carrier:" \o n
-InPortsTab    == [n \in PNames |-> IF IsCmd(n) \/ PR(n).kind = "fcomb" THEN SeqPorts(n, PR(n).ins) ELSE IF IsPass(n) \/ IsSub(n) \/ IsCat(n) THEN {PortId(n, "in")} ELSE {}]
+InPortsTab    == [n \in PNames |-> IF IsCmd(n) \/ PR(n).kind = "fcomb" THEN SeqPorts(n, PR(n).ins) ELSE IF IsSplit(n) THEN {PortId(n, "file")} ELSE IF IsPass(n) \/ IsSub(n) \/ IsCat(n) THEN {PortId(n, "in")} ELSE {}]
 JoinPortsTab  == [n \in PNames |-> IF IsCmd(n) THEN SeqPorts(n, PR(n).joinports) ELSE {}]
 JoinPortsOf(n) == JoinPortsTab[n]
 ParamPortsTab == [n \in PNames |-> IF IsCmd(n) \/ PR(n).kind = "pcomb" THEN SeqPorts(n, PR(n).params) ELSE {}]
 FileOutsTab   == [n \in PNames |-> IF IsCmd(n) THEN SeqPorts(n, PR(n).outs)
+                                   ELSE IF IsSplit(n) THEN {PortId(n, "split_file")}
                                    ELSE IF PR(n).kind = "src" \/ IsPass(n) \/ IsCat(n) THEN {PortId(n, "out")}
                                    ELSE IF IsSub(n) THEN {PortId(n, "substream")}
                                    ELSE IF PR(n).kind = "fcomb" THEN {PortId(n, PR(n).ins[i]) \o ">" : i \in DOMAIN PR(n).ins} ELSE {}]
@@ -144,8 +149,9 @@ EmOutTab   == [e \in EmIds |-> IF e \in FeedIds THEN FeedOut(FeedOf(e))
                                ELSE IF e \in SubIds THEN PortId(SubOwnerTab[e], SubPortTab[e]) \o ">"
                                ELSE IF IsComb(e) THEN PortId(e, CombNames(e)[1]) \o ">"
                                ELSE IF IsSub(e) THEN PortId(e, "substream")
+                               ELSE IF IsSplit(e) THEN PortId(e, "split_file")
                                ELSE IF PR(e).kind = "pcomb" THEN PortId(e, PR(e).params[1]) \o ">" ELSE PortId(e, "out")]
-RelayIn(e) == IF IsPass(e) \/ IsCat(e) THEN PortId(e, "in") ELSE PortId(e, PR(e).params[1])
+RelayIn(e) == IF IsSplit(e) THEN PortId(e, "file") ELSE IF IsPass(e) \/ IsCat(e) THEN PortId(e, "in") ELSE PortId(e, PR(e).params[1])
 EmRemotesTab == [e \in EmIds |-> IF e \in FeedIds THEN {FeedOf(e).to} ELSE RemotesOf(EmOutTab[e])]
 EmOut(e)   == EmOutTab[e]
 EmRemotes(e) == EmRemotesTab[e]
@@ -191,6 +197,7 @@ OutStream(op) ==
   LET n == Owner(op) IN
   IF IsComb(n) THEN ProductStream([i \in DOMAIN CombNames(n) |-> InStream(PortId(n, CombNames(n)[i]))], CombIdx(n, op))   \* canonical key order
   ELSE IF IsCat(n) THEN <<PR(n).item>>
+  ELSE IF IsSplit(n) THEN SplitParts(InStream(RelayIn(n)), PR(n).nparts)
   ELSE IF IsRelay(n) THEN InStream(RelayIn(n))
   ELSE IF IsSub(n) THEN <<Carrier(n)>>
   ELSE IF ~IsCmd(n) THEN (IF PR(n).kind = "src" THEN PR(n).items ELSE PR(n).values)
@@ -272,7 +279,7 @@ EmInit == [e \in EmIds |-> [i |-> 1, left |-> EmRemotes(e), wait |-> "", eof |->
 CombOutItems(n, p) == LET perm == cb[n].perm
                           j == CHOOSE i \in DOMAIN perm : perm[i] = p
                       IN  ProductStream([i \in DOMAIN perm |-> cb[n].got[PortId(n, perm[i])]], j)
-EmItems(e) == IF e \in Relays THEN (IF IsCat(e) THEN <<PR(e).item>> ELSE relayed[e])
+EmItems(e) == IF e \in Relays THEN (IF IsCat(e) THEN <<PR(e).item>> ELSE IF IsSplit(e) THEN SplitParts(relayed[e], IF "SplitDropLast" \in Weak THEN PR(e).nparts - 1 ELSE PR(e).nparts) ELSE relayed[e])
               ELSE IF e \in SubIds THEN (IF cb[SubOwnerTab[e]].perm = <<>> THEN <<>> ELSE CombOutItems(SubOwnerTab[e], SubPortTab[e]))
               ELSE EmItemsTab[e]
 AllOuts == UNION {OutsOf(n) : n \in RunSet} \cup {EmOut(e) : e \in FeedIds}
@@ -352,7 +359,7 @@ EmSendDone(e, r) ==     \* acceptor mode only
 RelayRecv(e, i) ==
   /\ Running /\ e \in Relays
   /\ \/ em[e].st = "collect"
-     \/ IsPass(e) /\ em[e].st = "run" /\ em[e].wait = "" /\ em[e].i > Len(relayed[e]) /\ ~em[e].eof   \* item forwarded: next receive
+     \/ IsPass(e) /\ em[e].st = "run" /\ em[e].wait = "" /\ em[e].i > Len(EmItems(e)) /\ ~em[e].eof   \* item forwarded: next receive
   /\ LET port == RelayIn(e) IN
      \/ /\ i > 0 /\ Receivable(port, i)
         /\ q' = [q EXCEPT ![port] = DropAt(@, i)]
